@@ -6,6 +6,7 @@
 use crate::exec::{Case, RunOutput, Shared};
 use crate::plan::Knobs;
 use crate::world::*;
+use raindb::RainDbIterator as _;
 use raindb::fs::{FileLock, FileSystem, RandomAccessFile, ReadonlyRandomAccessFile, TmpFileSystem};
 use raindb::{BloomFilterPolicy, DbOptions, ReadOptions, WriteOptions, DB};
 use raindb_verif_rt as rt;
@@ -28,6 +29,22 @@ pub enum LOp {
     /// n puts of ~120 bytes through the own handle (memtable rotations, flushes and compactions
     /// are then in flight when the handle is closed)
     Burst(u32),
+    /// n full forward scans through the own handle (iterator read sampling, with the H7 knob at a
+    /// few hundred bytes, schedules seek compactions from the reading thread)
+    Scan(u32),
+    /// one put whose write-ahead-log append fails (a single injected I/O error): the instance
+    /// records a background error; closing such an instance must still keep the lock until its
+    /// worker has stopped
+    FaultPut,
+    /// wait until the own instance has no background work scheduled (so that what a following scan
+    /// triggers is the only background work in flight)
+    Settle,
+    /// wait until some task begins to close its handle (or nobody is left who could), then try to
+    /// open: puts the attempt into the window between "close began" and "background work stopped"
+    OpenAfterClose,
+    /// scheduling directive (see `plan::Op::Align`): the next operation of this task starts when
+    /// another task sits at its nth scheduling point of a kind in mask
+    Align { mask: u16, nth: u32 },
 }
 
 #[derive(Serialize, Deserialize, Clone, Debug, PartialEq, Default)]
@@ -49,12 +66,16 @@ pub struct Traced {
     mutations: Arc<Mutex<Vec<(u64, usize, &'static str)>>>,
     /// (seq, task) of every successful lock acquisition
     locks: Mutex<Vec<(u64, usize)>>,
+    /// number of write-ahead-log appends that are still to fail (armed by `LOp::FaultPut`)
+    fail_wal_appends: Arc<std::sync::atomic::AtomicU32>,
 }
 
 /// Writable handle whose writes are scheduling points and are logged as mutations.
 struct TracedFile {
     inner: Box<dyn RandomAccessFile>,
     mutations: Arc<Mutex<Vec<(u64, usize, &'static str)>>>,
+    is_wal: bool,
+    fail_wal_appends: Arc<std::sync::atomic::AtomicU32>,
 }
 
 impl TracedFile {
@@ -62,6 +83,18 @@ impl TracedFile {
         rt::sched_point(rt::YieldKind::Fs);
         let seq = rt::next_seq();
         self.mutations.lock().unwrap().push((seq, rt::current_task(), "write"));
+    }
+}
+
+impl TracedFile {
+    fn maybe_fail(&self) -> io::Result<()> {
+        if self.is_wal {
+            use std::sync::atomic::Ordering::SeqCst;
+            if self.fail_wal_appends.fetch_update(SeqCst, SeqCst, |n| n.checked_sub(1)).is_ok() {
+                return Err(io::Error::new(io::ErrorKind::Other, "injected write-ahead-log write failure"));
+            }
+        }
+        Ok(())
     }
 }
 
@@ -80,6 +113,7 @@ impl io::Seek for TracedFile {
 impl io::Write for TracedFile {
     fn write(&mut self, buf: &[u8]) -> io::Result<usize> {
         self.note();
+        self.maybe_fail()?;
         self.inner.write(buf)
     }
     fn flush(&mut self) -> io::Result<()> {
@@ -99,6 +133,7 @@ impl ReadonlyRandomAccessFile for TracedFile {
 impl RandomAccessFile for TracedFile {
     fn append(&mut self, buf: &[u8]) -> io::Result<usize> {
         self.note();
+        self.maybe_fail()?;
         self.inner.append(buf)
     }
 }
@@ -143,7 +178,8 @@ impl FileSystem for Traced {
     fn create_file(&self, path: &Path, append: bool) -> io::Result<Box<dyn RandomAccessFile>> {
         self.enter_mut("create_file");
         let f = self.inner.create_file(path, append)?;
-        Ok(Box::new(TracedFile { inner: f, mutations: Arc::clone(&self.mutations) }))
+        let is_wal = path.extension().map(|e| e == "log").unwrap_or(false);
+        Ok(Box::new(TracedFile { inner: f, mutations: Arc::clone(&self.mutations), is_wal, fail_wal_appends: Arc::clone(&self.fail_wal_appends) }))
     }
     fn remove_file(&self, path: &Path) -> io::Result<()> {
         self.enter_mut(if path.file_name().map(|n| n == "LOCK").unwrap_or(false) { "remove_lock_file" } else { "remove_file" });
@@ -234,7 +270,37 @@ fn opts_create(fs: &Arc<Traced>, path: &Path, k: &Knobs, create_if_missing: bool
     }
 }
 
+/// Harness-side rendezvous on simulated primitives: (number of close events so far, lockers that
+/// are neither finished nor waiting).
+struct CloseSignal {
+    state: shuttle::sync::Mutex<(u64, usize)>,
+    cv: shuttle::sync::Condvar,
+}
+
+impl CloseSignal {
+    fn event(&self) {
+        self.state.lock().unwrap().0 += 1;
+        self.cv.notify_all();
+    }
+    fn finished(&self) {
+        self.state.lock().unwrap().1 -= 1;
+        self.cv.notify_all();
+    }
+    /// Wait for the next close event; gives up when every other locker is finished or waiting too.
+    fn wait_for_close(&self) {
+        let mut g = self.state.lock().unwrap();
+        let seen = g.0;
+        g.1 -= 1;
+        self.cv.notify_all();
+        while g.0 == seen && g.1 > 0 {
+            g = self.cv.wait(g).unwrap();
+        }
+        g.1 += 1;
+    }
+}
+
 struct Ctx {
+    close_signal: Arc<CloseSignal>,
     fs: Arc<Traced>,
     path: PathBuf,
     knobs: Knobs,
@@ -338,6 +404,7 @@ impl Ctx {
                 g.intervals.push((task, existing, opened, now));
             }
         }
+        self.close_signal.event();
         let _ = call("drop", move || drop(db));
     }
 
@@ -381,8 +448,16 @@ pub fn body(case: &Case, out: &Shared) {
     let tmp = TmpFileSystem::new(None);
     let root = tmp.get_root_path();
     let path = root.join("db");
-    let fs = Arc::new(Traced { inner: tmp, calls: Mutex::new(0), mutations: Arc::new(Mutex::new(vec![])), locks: Mutex::new(vec![]) });
+    let fs = Arc::new(Traced { inner: tmp, calls: Mutex::new(0), mutations: Arc::new(Mutex::new(vec![])), locks: Mutex::new(vec![]), fail_wal_appends: Arc::new(std::sync::atomic::AtomicU32::new(0)) });
+    if plan.tasks.iter().flatten().any(|o| matches!(o, LOp::Scan(_))) {
+        // sampled seek compactions within reach of a few scans
+        rt::with_ctx(|c| {
+            c.knobs.insert("iteration_read_bytes_period".into(), 200);
+            c.knobs.insert("min_allowed_seeks".into(), 2);
+        });
+    }
     let owners = Arc::new(Mutex::new(Owners::default()));
+    let close_signal = Arc::new(CloseSignal { state: shuttle::sync::Mutex::new((0, plan.tasks.len())), cv: shuttle::sync::Condvar::new() });
     let knobs = case.plan.opens.first().cloned().unwrap_or_else(|| Knobs::gen(&mut crate::rng::Rng::new(case.run_seed)));
     let n = plan.tasks.len();
     let barrier = Arc::new(shuttle::sync::Barrier::new(n));
@@ -393,7 +468,7 @@ pub fn body(case: &Case, out: &Shared) {
     let main_phase_done = Arc::new(std::sync::atomic::AtomicBool::new(false));
     let mut hs = vec![];
     for (t, ops) in plan.tasks.iter().cloned().enumerate() {
-        let ctx = Ctx { fs: fs.clone(), path: path.clone(), knobs: knobs.clone(), owners: owners.clone(), out: Arc::clone(out) };
+        let ctx = Ctx { close_signal: Arc::clone(&close_signal), fs: fs.clone(), path: path.clone(), knobs: knobs.clone(), owners: owners.clone(), out: Arc::clone(out) };
         let barrier = Arc::clone(&barrier);
         let winners = Arc::clone(&winners);
         let racers = plan.final_racers;
@@ -405,6 +480,8 @@ pub fn body(case: &Case, out: &Shared) {
                 locker_ids2.lock().unwrap().insert(rt::current_task());
                 let mut db: Option<DB> = None;
                 let mut round = 0u32;
+                // an I/O error was injected into the instance this task currently owns
+                let mut faulted = false;
                 for op in &ops {
                     if rt::is_poisoned() {
                         break;
@@ -436,11 +513,69 @@ pub fn body(case: &Case, out: &Shared) {
                         LOp::Close => {
                             if let Some(d) = db.take() {
                                 ctx.close(t, d);
+                                faulted = false;
                             }
                         }
                         LOp::Destroy => {
                             if db.is_none() {
                                 ctx.destroy(t);
+                            }
+                        }
+                        LOp::Align { mask, nth } => rt::align_request(*mask, *nth),
+                        LOp::Settle => {
+                            if let Some(d) = db.as_ref() {
+                                let _ = call("quiesce", || d.verif_wait_quiescent());
+                            }
+                        }
+                        LOp::OpenAfterClose => {
+                            if db.is_none() {
+                                ctx.close_signal.wait_for_close();
+                                round += 1;
+                                db = ctx.try_open(t, round);
+                                with_out(&ctx.out, |o| o.stats.probe("open_attempt_right_after_a_close_began"));
+                            }
+                        }
+                        LOp::Scan(k) => {
+                            if let Some(d) = db.as_ref() {
+                                // stop reading the moment a read sample exhausts a file's seek
+                                // allowance (reach probe of hook H8): whatever comes next in the
+                                // plan - typically the close - then races the compaction that the
+                                // sample has just asked for
+                                let sampled = || rt::with_ctx(|c| c.probes.get("read_sample_exhausted_seeks").copied().unwrap_or(0));
+                                let before = sampled();
+                                for _ in 0..*k {
+                                    rt::sched_point(rt::YieldKind::Client);
+                                    let _ = call("scan", || {
+                                        if let Ok(mut it) = d.new_iterator(ReadOptions::default()) {
+                                            let _ = it.seek_to_first();
+                                            let mut n = 0;
+                                            while it.is_valid() && n < 400 && sampled() == before {
+                                                n += 1;
+                                                if it.next().is_none() {
+                                                    break;
+                                                }
+                                            }
+                                        }
+                                    });
+                                    with_out(&ctx.out, |o| o.stats.probe("owner_scans"));
+                                    if sampled() != before {
+                                        with_out(&ctx.out, |o| o.stats.probe("owner_scan_cut_at_exhausted_seek_allowance"));
+                                        break;
+                                    }
+                                }
+                            }
+                        }
+                        LOp::FaultPut => {
+                            if let Some(d) = db.as_ref() {
+                                ctx.fs.fail_wal_appends.store(1, std::sync::atomic::Ordering::SeqCst);
+                                let key = format!("fault-{}", t).into_bytes();
+                                let r = call("put", || d.put(WriteOptions::default(), key, vec![b'f'; 60]));
+                                // whatever was not consumed is disarmed again
+                                ctx.fs.fail_wal_appends.store(0, std::sync::atomic::Ordering::SeqCst);
+                                if matches!(r, Called::Ok(Err(_))) {
+                                    faulted = true;
+                                    with_out(&ctx.out, |o| o.stats.probe("owner_write_failed_by_injected_fault"));
+                                }
                             }
                         }
                         LOp::Burst(k) => {
@@ -451,6 +586,10 @@ pub fn body(case: &Case, out: &Shared) {
                                     // "does not disturb the running instance": the owner's writes
                                     // (and the flushes they trigger) keep working
                                     if let Called::Ok(Err(e)) = call("put", || d.put(WriteOptions::default(), key, val)) {
+                                        if faulted {
+                                            // after an injected I/O error the instance may refuse writes
+                                            break;
+                                        }
                                         push_finding(&ctx.out, Finding::new(&["C17"], "owner-not-functional", "burst", format!("task {} owns the database but write {} of a burst failed: {:?}", t, j, e), None));
                                         break;
                                     }
@@ -462,6 +601,7 @@ pub fn body(case: &Case, out: &Shared) {
                 if let Some(d) = db.take() {
                     ctx.close(t, d);
                 }
+                ctx.close_signal.finished();
                 // ---- final phase: everybody closed; the first `racers` tasks race open ----
                 done.store(true, std::sync::atomic::Ordering::SeqCst);
                 barrier.wait();
@@ -691,6 +831,42 @@ pub fn classify_findings(res: &mut crate::exec::CaseResult) {
 }
 
 pub fn gen_plan(rng: &mut crate::rng::Rng, thorough: bool) -> LockPlan {
+    // scans (sampled seek compactions scheduled by a reader) and injected write-ahead-log faults are
+    // added by a pass of its own over the plan drawn below (own stream: the rest is unchanged)
+    let mut xr = rng.fork("lock-extra");
+    let mut plan = gen_plan_base(rng, thorough);
+    let scans = xr.chance(1, 4);
+    let faults = xr.chance(1, 6);
+    let aligns = xr.chance(1, 3);
+    let after_close = xr.chance(1, 2);
+    for ops in plan.tasks.iter_mut() {
+        let mut out = Vec::with_capacity(ops.len() + 2);
+        for op in ops.drain(..) {
+            let burst = matches!(op, LOp::Burst(_));
+            let op = if after_close && matches!(op, LOp::Open) && xr.chance(1, 3) { LOp::OpenAfterClose } else { op };
+            if matches!(op, LOp::Close) && faults && xr.chance(1, 2) {
+                out.push(LOp::FaultPut);
+            }
+            if matches!(op, LOp::Close | LOp::Open | LOp::Destroy) && aligns && xr.chance(1, 2) {
+                // close / open / destroy start while a worker thread sits in a filesystem call, has
+                // just released the database mutex, or is inside an unlocked section
+                let mask = *xr.pick(&[1u16 << 3, 1 << 3, 1 << 8, 0b110, 0x1ff]) | if xr.chance(2, 3) { crate::sched::ALIGN_HOLD } else { 0 };
+                out.push(LOp::Align { mask, nth: *xr.pick(&[1u32, 1, 2, 3, 5, 9]) });
+            }
+            out.push(op);
+            if burst && scans && xr.chance(2, 3) {
+                if xr.chance(1, 2) {
+                    out.push(LOp::Settle);
+                }
+                out.push(LOp::Scan(1 + xr.below(4) as u32));
+            }
+        }
+        *ops = out;
+    }
+    plan
+}
+
+fn gen_plan_base(rng: &mut crate::rng::Rng, thorough: bool) -> LockPlan {
     let n = rng.range(2, if thorough { 4 } else { 3 }) as usize;
     if rng.chance(2, 5) {
         // template: one owner closes while its background work is in flight, the others keep
